@@ -135,6 +135,7 @@ type Cluster struct {
 	mgmtMode       string
 	zombieNotFound bool      // see handle(): reads of crashed members are answered 'not found'
 	cfgSubs        []*cfgSub // open streaming-config responses (http.go)
+	pendingEnds    []*DStream // streams closed by the client whose stream-end(closed) has not been sent yet
 	mgmtHeld       int
 	mgmtRelease    chan struct{}
 }
@@ -587,7 +588,14 @@ func (c *Cluster) respond(q *Req, v replyVariant) {
 			s.endStat = int(memd.StreamEndClosed)
 			s.open = false
 			st := s
-			after = func() { c.emitEnd(st) }
+			if w.cfg.W.LateEnd > 0 && !w.quiet && w.tape.Draw(3, nil) == 0 {
+				// the producer sends the stream-end asynchronously: it may reach the client well after the response
+				delete(cn.streams, st.vb)
+				c.pendingEnds = append(c.pendingEnds, st)
+				w.probe("stream-end-after-close-response")
+			} else {
+				after = func() { c.emitEnd(st) }
+			}
 		}
 	case memd.CmdDcpStreamReq:
 		after = c.streamReq(cn, req, res)
@@ -1006,7 +1014,9 @@ func (c *Cluster) emitEnd(s *DStream) {
 	p.Extras = binary.BigEndian.AppendUint32(nil, uint32(s.endStat))
 	c.w.jl(&journal.Ev{K: journal.KEmit, M: s.conn.member, Vb: s.vb, S: "end", I: int64(s.endStat), ID: s.sid})
 	s.open = false
-	delete(s.conn.streams, s.vb)
+	if s.conn.streams[s.vb] == s {
+		delete(s.conn.streams, s.vb)
+	}
 	s.conn.write(p)
 }
 
